@@ -39,7 +39,15 @@ SAMPLE_EVERY = {"quick": 3000, "thorough": 60000}
 
 # period 1.0 when given as float; 1.5 s (a fractional timedelta: days/seconds/microseconds all
 # matter) when given as timedelta.  Gaps and durations are multiples of P/2 (dyadic in both cases).
-PERIODS = {"float": 1.0, "timedelta": 1.5}
+PERIODS = {
+    "float": 1.0,
+    "timedelta": 1.5,
+    # FINE / odd / huge periods (exact dyadic values off the millisecond grid)
+    "float-fine": 1 / 1024 + 1 / 8192,
+    "float-odd": 1.0 + 1 / 1024,
+    "timedelta-days": 86400.0 + 1 / 64,  # timedelta(days=1, microseconds=15625)
+    "int": 2.0,  # period given as the int 2
+}
 GAPS = [0.0, 0.5, 1.0, 1.5]  # in units of P
 
 
@@ -70,6 +78,12 @@ def programs(tier: str):
                             }
     yield from _cancel_programs(tier)
     yield from _long_programs(tier)
+    for n in (2, 3, 4) if tier == "quick" else (2, 3, 4, 5):
+        for gaps in itertools.product(GAPS, repeat=n - 1):
+            for limit in (1, 2):
+                for period in ("float-fine", "float-odd", "timedelta-days", "int"):
+                    for dur in (0.0, 0.5):
+                        yield {"gaps": list(gaps), "limit": limit, "dur": dur, "period": period, "fail": None}
     # the decorator's defaults (limit 1, period 1 s): bare, called without arguments, one given
     for form, limit in (("bare", 1), ("call", 1), ("limit-only", 2), ("limit-only", 1), ("period-only", 1)):
         for n in (2, 3, 4):
@@ -266,7 +280,8 @@ def execute(program, ch: Chooser) -> Result:  # noqa: C901, PLR0912, PLR0915
         elif form == "period-only":
             fn = throttle(period=P)(fn)  # limit defaults to one
         else:
-            fn = throttle(limit=limit, period=P if program["period"] == "float" else timedelta(seconds=P))(fn)
+            pform = program["period"]
+            fn = throttle(limit=limit, period=timedelta(seconds=P) if pform.startswith("timedelta") else (int(P) if pform == "int" else P))(fn)
         tasks: dict[int, asyncio.Task] = {}
 
         async def call(i):
